@@ -477,25 +477,61 @@ class RGI:
         return out
 
 
-class SeqBarrier:
-    """the workers run one at a time (a run lock is released only while waiting here): a faithful sequential schedule of the
-    barrier protocol (the protocol itself is C07)"""
-    def __init__(self, n, lock):
-        self.b = threading.Barrier(n)
-        self.lock = lock
+class Deadlock(Exception):
+    pass
 
-    def wait(self):
-        self.lock.release()
-        try:
-            self.b.wait(timeout=120)
-        finally:
-            self.lock.acquire()
+
+class SeqBarrier:
+    """the workers run one at a time (the run lock is released only while waiting here): a faithful sequential schedule of
+    the barrier protocol (the schedules themselves are C07).  A stripe left waiting when every other stripe is waiting too
+    or has returned -- fewer arrivals than parties -- is reported as a deadlock instead of hanging."""
+    def __init__(self, n, lock):
+        self.n = n
+        self.cv = threading.Condition(lock)
+        self.waiting = self.finished = self.gen = 0
+        self.broken = None
+
+    @property
+    def n_waiting(self):
+        return self.waiting
+
+    @property
+    def parties(self):
+        return self.n
+
+    def wait(self, timeout=None):
+        if self.broken:
+            raise threading.BrokenBarrierError(self.broken)
+        self.waiting += 1
+        if self.waiting == self.n:
+            self.waiting = 0
+            self.gen += 1
+            self.cv.notify_all()
+            return 0
+        if self.waiting + self.finished == self.n:
+            self.broken = 'deadlock: %d stripe(s) wait at a barrier that the other %d stripe(s) never reach' % (self.waiting, self.finished)
+            self.cv.notify_all()
+            raise Deadlock(self.broken)
+        g = self.gen
+        while self.gen == g and not self.broken:
+            self.cv.wait(timeout=120)
+        if self.broken and self.gen == g:
+            raise Deadlock(self.broken) if self.broken.startswith('deadlock') else threading.BrokenBarrierError(self.broken)
+        return 1
+
+    def done(self):
+        self.finished += 1
+        if self.waiting and self.waiting + self.finished == self.n and not self.broken:
+            self.broken = 'deadlock: %d stripe(s) wait at a barrier that the other %d stripe(s) never reach' % (self.waiting, self.finished)
+            self.cv.notify_all()
 
     def reset(self):
         pass
 
     def abort(self):
-        self.b.abort()
+        if not self.broken:
+            self.broken = 'aborted'
+        self.cv.notify_all()
 
 
 def run_bane_sym(c, bane, pixels, stripes, grid, box, domask=True, bscale=None, naxis=2):
@@ -565,6 +601,7 @@ def run_bane_sym(c, bane, pixels, stripes, grid, box, domask=True, bscale=None, 
             except Exception:
                 pass
         finally:
+            bane.barrier.done()
             lock.release()
     ths = [threading.Thread(target=work, args=(r,)) for r in stripes]
     for t in ths:
@@ -572,7 +609,8 @@ def run_bane_sym(c, bane, pixels, stripes, grid, box, domask=True, bscale=None, 
     for t in ths:
         t.join()
     if errs:
-        real_errs = [e for e in errs if not isinstance(e, threading.BrokenBarrierError)] or errs
+        dl = [e for e in errs if isinstance(e, Deadlock)]
+        real_errs = dl or [e for e in errs if not isinstance(e, threading.BrokenBarrierError)] or errs
         raise real_errs[0]
     return shared['ibkg_x'], shared['irms_x']
 
@@ -619,7 +657,12 @@ def h_exec(bane, cfg, mode):
             c.oblige(tag + ':constant image -> some background defined', z3.BoolVal(nb > 0))
             return dict()
         px = lambda r, cc: real('p_%d_%d' % (r, cc))
-        b0, r0 = run_bane_sym(c, bane, image(px), **kw)
+        try:
+            b0, r0 = run_bane_sym(c, bane, image(px), **kw)
+        except Deadlock as e:
+            c.oblige(tag + ':every stripe passes the same barriers and returns', z3.BoolVal(False), info=str(e))
+            return dict(deadlock=str(e))
+        c.oblige(tag + ':every stripe passes the same barriers and returns', z3.BoolVal(True))
         blank = set(cfg['blanks'])
         # mask clauses (NaN-ness is concrete in this model)
         isnan = lambda v: not isinstance(v, SN) and v != v
